@@ -1,25 +1,45 @@
 """C18 -- Bulk connection helpers distribute connections as documented."""
-from props.common import other_tasks, TRUSTED_CORE
+from props.common import other_tasks, contract_tasks, lemma_tasks, TRUSTED_CORE
 
 PROPERTY = "C18"
-LEVEL = "exploration"
+LEVEL = "proof"
 
 
 def tasks(tier):
-    return other_tasks("contracts.util_bounded", "C18", "bounded")
+    return (contract_tasks("contracts.util", "C18", tier=tier) + lemma_tasks("contracts.util", "C18")
+            + other_tasks("contracts.util_bounded", "C18", "bounded"))
 
 
-TRUSTED_BASE = []
-ASSUMPTIONS = ["random.randint(a, b) returns an int in [a, b]; random.shuffle permutes the list in place (all outcomes are enumerated)",
-               "entities are hashable, distinct destinations are distinct objects"]
-NOT_COVERED = ["sizes beyond the stated bound: the counting argument (capacity left >= sources left; evenness over rounds) needs "
-               "cardinality reasoning that the self-written VC generator does not provide -- no deductive contract is claimed for C18"]
-LEVEL_TEXT = ("BOUNDED stand-in only (not a proof): connect_randomly / _connect_evenly / _connect_randomly / connect_many_to_one of the real "
-              "module are run for every source/destination count up to the bound and for EVERY outcome of random.randint / random.shuffle "
-              "against the property statement (each source exactly once, evenness, max_connects, returned set, arguments passed on, "
-              "caller's list untouched).")
-DESIGN_REF = "DESIGN.md section 8 (C18), section 12"
-LEVEL_NOTE = "Bound stated in the evidence (coverage.bounded[].bound). Nothing is counted as proved for C18."
-TECHNIQUE = "bounded stand-in for the functions (exhaustive small scope incl. all random outcomes); deductive route not reached"
+TRUSTED_BASE = TRUSTED_CORE
+ASSUMPTIONS = [
+    "assumed contracts of the standard library: random.randint(a, b) raises ValueError iff a > b and otherwise returns an int in [a, b]; "
+    "random.shuffle permutes the list in place (a duplicate-free list stays duplicate-free with the same members and length); "
+    "list.remove(x) removes the first element equal to x (ValueError if none); set.add / dict.get / dict item access as in Python",
+    "entities are terms of an uninterpreted sort, == / hash on entities is identity (mosaik.scenario.Entity defines neither __eq__ nor "
+    "__hash__; entity equality itself is only exercised by the bounded stand-in with real Entity objects)",
+    "the destination 'set' is duplicate-free (precondition wf of the contracts); sources may repeat (one connection per position)",
+    "World.connect is external here (decided under C11): every call is recorded in a ghost log with a ghost counter per destination that is "
+    "updated together with the log; an exception raised by World.connect would propagate and is not modelled",
+    "max_connects is an int or float('inf') (n * inf = inf for n >= 1; int >= inf is False)",
+    "the sum Cap over the destinations is introduced by its recursive definition; the principle of induction that turns the discharged base and "
+    "step lemmas (Cap_zero / Cap_update / Cap_full) into the universally quantified facts whose instances are used is applied outside the solver",
+    "partial correctness: termination of _connect_evenly's while loop (pos grows by len(dest_set) >= 1) is not proved",
+]
+NOT_COVERED = ["iterables other than lists for src_set / dest_set (tuples, generators) are exercised only by the bounded stand-in",
+               "World.connect raising in the middle of a bulk connection"]
+LEVEL_TEXT = ("Contracts on the real connect_many_to_one, _connect_randomly, _connect_evenly and connect_randomly for ANY number of sources and "
+              "destinations, any max_connects (int or inf) and EVERY outcome of random.randint / random.shuffle: loop invariants over a ghost log of "
+              "the World.connect calls and a ghost counter per destination give -- every source is connected exactly once (in order) to a member of "
+              "the destination set with the caller's attribute pairs passed on; evenly: the counts of any two destinations differ by at most one "
+              "(counts of the destinations before position k of the current permutation are one ahead); not evenly: no count exceeds max_connects, "
+              "and random.randint is never asked for an empty range while a source is left (capacity argument over the sum Cap, proved by induction "
+              "lemmas); the returned set is exactly the set of destinations with a positive count; AssertionError iff the destination set is empty "
+              "or the capacity does not suffice; the caller's destination list is untouched (connect_randomly verified against its callees' "
+              "contracts). The exhaustive small-scope stand-in (real Entity objects, other iterables) is kept next to it, labelled bounded.")
+DESIGN_REF = "DESIGN.md section 8 (C18), section 13.9"
+LEVEL_NOTE = ("Proved per function for all sizes and all random outcomes under the listed assumptions (assumed contracts of random / list / set / dict, "
+              "identity equality of entities, World.connect external). Trusted: pyvc encoder, z3/cvc5.")
+TECHNIQUE = ("contract-based deductive verification (AST->z3 VCs on the real functions of mosaik/util.py, loop invariants with ghost call log and "
+             "counters, induction lemmas for the capacity sum); bounded exhaustive stand-in alongside")
 RULE = ("one case = one (source count, destination count, mode, max_connects, complete sequence of random outcomes); all cases up to the bound are "
         "enumerated, hence distinct; a case is non-trivial if at least one source has to be connected")
